@@ -69,9 +69,17 @@ impl Reporter for GateReporter {
     }
 }
 
+static CANCELABLE: AtomicBool = AtomicBool::new(false);
+
 pub fn install() {
+    install_with(false)
+}
+
+/// `cancelable`: the collector holds every trace until its root finishes (C03 / C04)
+pub fn install_with(cancelable: bool) {
+    CANCELABLE.store(cancelable, Ordering::SeqCst);
     let g = GATE.get_or_init(|| Arc::new(Gate::default())).clone();
-    fastrace::set_reporter(GateReporter(g), Config::default().report_interval(Duration::from_secs(3600)));
+    fastrace::set_reporter(GateReporter(g), Config::default().report_interval(Duration::from_secs(3600)).cancelable(cancelable));
     std::thread::sleep(Duration::from_millis(100)); // the background thread's initial (empty) cycle
 }
 
@@ -139,8 +147,12 @@ pub fn run(c: &FrCase) -> Result<Vec<String>, String> {
         let pre_names2 = if t == 0 { pre_names.clone() } else { vec![] };
         hs.push(std::thread::spawn(move || {
             let mut mine = pre_names2;
+            let cancelable = CANCELABLE.load(Ordering::SeqCst);
             for (i, k) in kinds.iter().enumerate() {
                 let name = format!("b{}-{}-{}", t, tag2, i);
+                // spans of a trace whose root is still open are not due yet when the collector
+                // holds traces back; a cancelled trace is never due
+                let due = !cancelable || *k == 0;
                 match k {
                     0 => drop(Span::root(name.clone(), SpanContext::new(TraceId(100 + i as u128), SpanId(0)))),
                     1 => drop(Span::enter_with_parent(name.clone(), &parent)),
@@ -155,7 +167,9 @@ pub fn run(c: &FrCase) -> Result<Vec<String>, String> {
                         let _l = LocalSpan::enter_with_local_parent(name.clone());
                     }
                 }
-                mine.push(name);
+                if due {
+                    mine.push(name);
+                }
             }
             started2.store(true, Ordering::SeqCst);
             entering2.fetch_add(1, Ordering::SeqCst);
@@ -213,6 +227,31 @@ pub fn run(c: &FrCase) -> Result<Vec<String>, String> {
     }
     drop(live_root);
     fastrace::flush();
+    if CANCELABLE.load(Ordering::SeqCst) {
+        // every trace of the case has finished by now: each arrives whole, cancelled ones not at all
+        let sink = SINK.lock().unwrap().clone();
+        let mut want: Vec<String> = vec![format!("live-{}", tag)];
+        for t in 0..nthreads {
+            want.push(format!("handoff-{}-{}", tag, t));
+            let kinds = if t == 0 { c.b_spans.clone() } else { vec![0] };
+            for (i, k) in kinds.iter().enumerate() {
+                let name = format!("b{}-{}-{}", t, tag, i);
+                if *k == 3 {
+                    if sink.contains(&name) {
+                        results.lock().unwrap().push(format!("CANCELLED-DELIVERED: root {:?} was cancelled before it finished but was reported", name));
+                    }
+                } else {
+                    want.push(name);
+                }
+            }
+        }
+        for n in want {
+            let k = sink.iter().filter(|m| **m == n).count();
+            if k != 1 {
+                results.lock().unwrap().push(format!("INCOMPLETE: span {:?} finished before its root did, all roots have finished and a cycle has run, but it was reported {} times", n, k));
+            }
+        }
+    }
     #[cfg(fastrace_verif)]
     {
         // C08: every trace of the case has finished and a full cycle has run since
